@@ -18,7 +18,8 @@ from .common import Ctx, python_flags
 
 RULE = ("formula strings of the grammar E/T/F (random nesting <=3, random whitespace incl. \\n\\r\\t, 2-4 ids with "
         "multi-digit / leading-zero spellings), composition-API trees (depth <=3, engines reused, constants, max/min, "
-        "consumption/production), push_* call sequences on a bare FormulaBuilder (all ten operators, constants, clippers, "
+        "consumption/production; 30% written with builder OBJECTS reused: in two expressions, twice in one, after a "
+        "discarded operation), push_* call sequences on a bare FormulaBuilder (all ten operators, constants, clippers, "
         "per-metric flags), malformed strings / token streams (only model=code); 3-5 rounds per engine with values from "
         "{0,±1,±2,3,±4,8,±1/2,1/4,...} so that sub-expressions and divisors hit 0, some inputs missing; thorough adds every "
         "operator sequence x every parenthesisation with <=4 operators over 3 ids.  non-trivial = >=2 operators of >=2 "
@@ -45,9 +46,14 @@ def gen_cases(ctx: Ctx, n: int, p_missing: float, per_id_flags: float) -> list[d
                           "_gen": (seed, rng.randint(3, 5), p_missing)})
         elif r < 0.72:
             engines = rng.sample([1, 2, 3, 4, 5], rng.randint(2, 4))
-            tree = g.gen_ho(rng, engines, rng.choice([1, 2, 2, 3]))
-            cases.append({"kind": "ho", "tree": tree, "z": rng.random() < 0.35, "rounds": None,
-                          "_gen": (seed, rng.randint(3, 5), p_missing)})
+            case = {"kind": "ho", "z": rng.random() < 0.35, "rounds": None, "_gen": (seed, rng.randint(3, 5), p_missing)}
+            if rng.random() < 0.3:
+                # builder objects bound to variables and reused; the expression as written is `tree`
+                case["prog"] = g.gen_ho_prog(rng, engines, rng.choice([1, 2]))
+                case["tree"] = g.ho_prog_tree(case["prog"])
+            else:
+                case["tree"] = g.gen_ho(rng, engines, rng.choice([1, 2, 2, 3]))
+            cases.append(case)
         elif r < 0.84:
             toks = g.gen_tok_stream(rng, [1, 2, 3], True)
             if any(t["t"] == "m" for t in toks):
